@@ -379,6 +379,25 @@ func replyFor(g *genCtx, sp sessParams, class byte, fn, cmdNo byte, prefix []byt
 		payload := rawAES(key, rbytes(g.rng, 16), pt)
 		w := specV2(0, true, true, 0, 0, sp.lid, b.outSeq, payload, int(sp.integ), sp.k1)
 		r = append([]byte{6, 0, 0xff, 7}, w...)
+	case 'H': // forged: authenticated flag SET, plaintext message, our session ID, and NO trailer at all
+		msg := rsp(fn, cmdNo, 0, []byte{0x68})
+		w := []byte{6, 0x40}
+		w = append(w, le32b(sp.lid)...)
+		w = append(w, le32b(b.outSeq)...)
+		w = append(w, le16b(uint16(len(msg)))...)
+		r = append([]byte{6, 0, 0xff, 7}, append(w, msg...)...)
+	case 'J': // authentic response cut exactly at the end of the payload (pad, pad length, next header, AuthCode gone)
+		full := b.seal(rsp(fn, cmdNo, 0, body))
+		plen := int(full[14]) | int(full[15])<<8
+		r = full[:16+plen]
+	case 'Q': // authentic response whose AuthCode is cut short by 1..all of its bytes, or extended by junk
+		full := b.seal(rsp(fn, cmdNo, 0, body))
+		_, il := integParams(sp.integ)
+		if g.rng.Intn(4) == 0 {
+			r = append(full, rbytes(g.rng, 1+g.rng.Intn(8))...)
+		} else {
+			r = full[:len(full)-1-g.rng.Intn(il)]
+		}
 	case 'A': // authentic but not encrypted
 		r = b.sealWith(rsp(fn, cmdNo, 0, body), sp.lid, b.outSeq, false, true, sp.k1, sp.k2)
 	case 'G':
@@ -439,7 +458,7 @@ func strayReply(g *genCtx, fn, cmdNo byte, prefix []byte) (fn2, cmd2 byte, prefi
 }
 
 func genSend(g *genCtx) {
-	alphabet := "FEBTXUVWSNCPAGKRML"
+	alphabet := "FEBTXUVWSNCPAHJQGKRML"
 	suites := [][2]byte{{1, 1}, {3, 4}, {2, 2}, {1, 4}, {3, 1}}
 	depth := 3
 	if g.thorough() {
